@@ -201,7 +201,12 @@ func checkProto(b *rt.Built, s *m.Service) []string {
 			excl[mp.Attr] = true
 		}
 		if in := pf.Message(r.In); in != nil {
-			out = append(out, checkMessage(d, pf, in, meth.Payload, excl, "request of "+meth.Name)...)
+			reqAttr := meth.Payload
+			if wantIn {
+				// the request stream carries the streaming payload; the payload itself travels in metadata only
+				reqAttr, excl = meth.StreamingPayload, nil
+			}
+			out = append(out, checkMessage(d, pf, in, reqAttr, excl, "request of "+meth.Name)...)
 		}
 		excl = map[string]bool{}
 		for _, mp := range append(append([]m.Mapping{}, meth.GRPC.Headers...), meth.GRPC.Trailers...) {
@@ -263,7 +268,7 @@ func TestGRPC(t *testing.T) {
 		stats.CaseSample("protoc-refused|"+out.Run.Name, true, map[string]any{"design": out.Run.Name, "kind": "proto-file-refused", "detail": firstLines(out.Detail, 6)})
 		fmt.Printf("C10 generated protocol buffer file refused by protoc (design saved: %s):\n%s\n", dir, firstLines(out.Detail, 12))
 	}
-	sess, built := rt.Prepare(t, "c10", rt.Options{Profile: gen.GRPCProfile(), N: n, Seed: seed, Generate: generate, Extra: []*m.Design{gen.GRPCMatrix()}, OnSkip: onSkip})
+	sess, built := rt.Prepare(t, "c10", rt.Options{Profile: gen.GRPCProfile(), N: n, Seed: seed, Generate: generate, Extra: []*m.Design{gen.GRPCMatrix(), gen.GRPCStreamMatrix()}, OnSkip: onSkip})
 	defer sess.Close()
 	defer rt.CloseAll(built)
 	if protoFailures > 0 {
